@@ -929,7 +929,7 @@ func main() {
 		b, _ := json.Marshal(d.job)
 		inputs[i] = string(b)
 	}
-	results := vlib.RunPool(inputs, 8, 20*time.Second, 4<<20)
+	results := vlib.RunPool(inputs, 8, 90*time.Second, 4<<20)
 	for i, d := range docs {
 		res := results[i]
 		var o docOut
